@@ -288,7 +288,9 @@ def run_case(case, ctx):
                 out_dir = pp[j] - np.delete(pp, j, axis=0).mean(0)
                 if np.linalg.norm(out_dir) > 0.3:
                     extra = pp[j] + out_dir / np.linalg.norm(out_dir) * float(rng.uniform(0.9, 1.3))
-                    if np.linalg.norm(pp - extra, axis=1).min() > 0.7:
+                    # (B must itself stay a pattern the search supports in this cell: every width above its diameter + 2*atol)
+                    fits = np.all(G.perp_widths(np.array(S.cell, float)) > G.diameter(np.vstack([pp, extra])) + 2 * atol + 0.05)
+                    if np.linalg.norm(pp - extra, axis=1).min() > 0.7 and fits:
                         B = dict(B, elements=list(B["elements"]) + ["Te"], positions=np.vstack([pp, extra]))
                         st.count("two_step_histories_with_a_larger_B")
             tol = 1e-6 if len(pat["elements"]) == 1 else 2 * c05.bound(atol, pat["positions"], B["positions"])
